@@ -163,6 +163,28 @@ def run(res, f, tier):
        "a name is a valid identifier only if its first character is '_' or XID_Start AND all remaining characters are XID_Continue (empty: no): offending paths %s" % bad)
     rows = summ(f, reserved, ["name"])
     ob(len(rows) == 1 and rows[0]["ret"].startswith("[str]::contains('") and rows[0]["ret"].endswith("', name)"), "C15|reserved", "is_reserved_keyword must test membership of the unmodified name in the keyword table: %s" % [r["ret"] for r in rows])
+    # keyword tables agree: every alphabetic keyword of the grammar is reserved for function names
+    import grammar as _grammar
+    import re as _re
+    kw_body = [b for d, b in f.bodies.items() if d.endswith("keywords::KEYWORDS") and b["kind"].startswith("Const")]
+    reserved_words = set()
+    for b in kw_body:
+        for blk in b["blocks"]:
+            for st_ in blk["stmts"]:
+                if st_["k"] == "assign" and st_["rv"]["k"] == "agg" and st_["rv"]["ak"] == "array":
+                    for o in st_["rv"]["ops"]:
+                        if o.get("k") == "const" and "data" in o and "str" in o["data"]:
+                            reserved_words.add(o["data"]["str"])
+    g = _grammar.load(f)
+    grammar_words = set()
+    for rx, skip in g["table"]:
+        m = _re.fullmatch(r"\(\?:([a-z_]+)\)", rx)
+        if m:
+            grammar_words.add(m.group(1))
+    res.floor("reserved words", len(reserved_words), 38)
+    res.floor("keyword tokens of the grammar", len(grammar_words), 34)
+    missing = sorted(grammar_words - reserved_words)
+    ob(not missing, "C15|keywords-agree", "keywords of the grammar that are not reserved as function names (a function of that name could be registered but never called): %s" % missing)
     # ------------------------------------------------------------------ who may write the tables
     writers = {"functions": set(), "rules": set()}
     for d, b in f.bodies.items():
